@@ -56,7 +56,7 @@ def _cases(tier, rng):
         outs = rng.sample(valid, k)
         if rng.random() < 0.15:
             outs.append(rng.choice(outs))       # duplicate outlet: later id wins
-        mode = rng.choice(["idxs", "idxs", "xy", "default", "badids"])
+        mode = rng.choice(["idxs", "idxs", "xy", "default", "badids", "streams"])
         dt = rng.randrange(4)
         hasids = mode == "badids" or rng.random() < 0.6
         ids = [rng.randint(1, 30000) for _ in outs] if hasids else []
@@ -72,7 +72,22 @@ def _cases(tier, rng):
             hasids = rng.random() < 0.3
             outs = []
             ids = [rng.randint(1, 30000) for _ in nets.pits(ds)] if hasids else []
-        yield {"k": 503, "args": [ds, [], outs, [int(hasids)], ids], "call": {"mode": mode, "dtype": dt},
+        extra = {}
+        if mode == "streams":
+            # outlets are first moved to the first stream cell at or downstream of them (or the pit): round-5 seed;
+            # the model and the oracle get the snapped outlets, the implementation the raw ones and the stream mask
+            strm = [int(ds[i] >= 0 and rng.random() < rng.choice([0.2, 0.5])) for i in range(n)]
+            for o in rng.sample(outs, rng.randint(0, len(outs))):
+                strm[o] = 1             # mixed requests: some outlets already on a stream
+            snapped = []
+            for o in outs:
+                j = o
+                while not strm[j] and ds[j] != j:
+                    j = ds[j]
+                snapped.append(j)
+            extra = {"raw_outs": outs, "streams": strm}
+            outs = snapped
+        yield {"k": 503, "args": [ds, [], outs, [int(hasids)], ids], "call": dict({"mode": mode, "dtype": dt}, **extra),
                "group": f"rand-api-{mode}"}
         # the same query on an object that answered basins() before pits were added (round-3 seed: a memoised map)
         nonpit = [i for i in valid if ds[i] != i]
@@ -117,11 +132,20 @@ def impl(case):
             call_impl(flw.basins)
             call_impl(flw.add_pits, idxs=np.array(call["addpits"]))
         else:
-            flw = make_raster(ds, shape=(1, n)) if call["mode"] == "xy" else make_raster(ds)
+            flw = make_raster(ds)
         dt = DTYPES[call["dtype"]]
         kw = {}
         if call["mode"] == "xy":
-            kw["xy"] = (np.array([o + 0.5 for o in outs]), np.array([-0.5 for _ in outs]))
+            # cell-centre coordinates under transforms with square and non-square, north-up and south-up cells and a
+            # far origin (round-5 seed); every value is exact in binary64
+            from affine import Affine
+            xres, yres, x0, y0 = [(1.0, -1.0, 0.0, 0.0), (0.5, -0.25, 100.0, 40.0), (2.0, 3.0, -7.0, 5.0), (30.0, -90.0, 1000.0, 2000.0)][(sum(ds) + n) % 4]
+            flw = make_raster(ds, transform=Affine(xres, 0.0, x0, 0.0, yres, y0))
+            ncol = flw.shape[1]
+            kw["xy"] = (np.array([x0 + (o % ncol + 0.5) * xres for o in outs]), np.array([y0 + (o // ncol + 0.5) * yres for o in outs]))
+        elif call["mode"] == "streams":
+            kw["idxs"] = np.array(call["raw_outs"], dtype=np.int64)
+            kw["streams"] = np.array(call["streams"], dtype=bool).reshape(1, n)
         elif call["mode"] != "default":
             kw["idxs"] = np.array(outs, dtype=np.int64)
         if hasids[0]:
